@@ -172,6 +172,47 @@ pub fn judge(case: &Case, acc: &mut Acc) {
         }
         return;
     }
+    if case.op == "xma-beside" {
+        // a received message that carries, beside its XOR-MAPPED-ADDRESS, an attribute of another
+        // type x with an address-shaped value (another address, well-formed for XOR-MAPPED-ADDRESS):
+        // attribute::<XorMappedAddress>() returns the address of the 0x0020 attribute
+        let x = case.args[0] as u16;
+        let t: u128 = 0x0D0C_0B0A_0908_0706_0504_0302;
+        acc.outcome("address read from a message carrying an address-shaped attribute of another type");
+        for (a, decoy) in [("192.0.2.33:40001", "203.0.113.9:5000"), ("[2001:db8::33]:40001", "[2001:db8:ffff::9]:5000"), ("192.0.2.33:40001", "[2001:db8:ffff::9]:5000")] {
+            let (a, decoy): (SocketAddr, SocketAddr) = (a.parse().unwrap(), decoy.parse().unwrap());
+            let decoy_val = attrs::encode(Kind::XorMappedAddress, &Val::Addr(attrs::xor_addr(decoy, t)));
+            let xma = XorMappedAddress::new(a, t.into());
+            for decoy_first in [true, false] {
+                let mut b = crate::real::builder(2, 1, t);
+                let r = RawAttribute::new(AttributeType::new(x), &decoy_val);
+                if decoy_first {
+                    b.add_raw_attribute(r).unwrap();
+                    b.add_attribute(&xma).unwrap();
+                } else {
+                    b.add_attribute(&xma).unwrap();
+                    b.add_raw_attribute(r).unwrap();
+                }
+                let bytes = b.build();
+                let got = stun_types::message::Message::from_bytes(&bytes).map_err(|e| format!("{e:?}")).and_then(|m| m.attribute::<XorMappedAddress>().map(|y| y.addr(t.into())).map_err(|e| format!("{e:?}")));
+                if got != Ok(a) {
+                    viol!(acc, P, "address-from-another-attribute", case, format!("attribute::<XorMappedAddress>() of a message whose XOR-MAPPED-ADDRESS says {a} and that also carries an attribute of type {x:#06x} ({}) holding {decoy}", if decoy_first { "before it" } else { "after it" }), format!("{a}"), format!("{got:?}"));
+                    return;
+                }
+                // without the 0x0020 attribute there is no XOR-MAPPED-ADDRESS in the message
+                let mut b = crate::real::builder(2, 1, t);
+                b.add_raw_attribute(RawAttribute::new(AttributeType::new(x), &decoy_val)).unwrap();
+                let bytes = b.build();
+                if let Ok(m) = stun_types::message::Message::from_bytes(&bytes) {
+                    if let Ok(y) = m.attribute::<XorMappedAddress>() {
+                        viol!(acc, P, "address-from-another-attribute", case, format!("attribute::<XorMappedAddress>() finds an address in a message that has no 0x0020 attribute, only one of type {x:#06x}"), "Err(MissingAttribute)", format!("{}", y.addr(t.into())));
+                        return;
+                    }
+                }
+            }
+        }
+        return;
+    }
     let (a, t) = parse_case(case);
     let wide: u128 = (case.args.first().copied().unwrap_or(0) as u128 & 0xFFFF_FFFF) << 96;
     match xma_check(a, t, true, wide) {
@@ -332,6 +373,12 @@ pub fn run(ctx: &Ctx) -> Report {
             }
         }
     }
+    // every other 16-bit attribute type carrying an address-shaped value beside the XOR-MAPPED-ADDRESS
+    for x in 0..=0xFFFFi64 {
+        if ![0x0020, 0x0008, 0x001C, 0x8028].contains(&x) {
+            cases.push(Case::new("xma-beside", vec![]).args(&[x]));
+        }
+    }
     let n_cases = cases.len() as u64;
     let mut acc = cases
         .into_par_iter()
@@ -345,7 +392,7 @@ pub fn run(ctx: &Ctx) -> Report {
         .reduce(Acc::default, |a, b| a.merge(b));
     acc.nontrivial = n_cases;
     let mut bounds = json!({"ports": 65536, "lane_walk_backgrounds": 5, "cases": n_cases});
-    let mut rule = "all 65536 ports x 4 addresses x 3 tids; every byte lane of IPv4/IPv6 address and of the transaction id takes all 256 values against 5 backgrounds (zeros, ones, equal to the XOR key, complement, seeded); boundary tids; 17 special-purpose addresses (unspecified, loopback, IPv4-mapped / -compatible, NAT64, link-local, multicast, 6to4, ...) x 5 ports x 4 tids, and the addresses whose obfuscated (XOR-ed) form is one of those; transaction ids built from integers wider than 96 bits and 4000 ids from TransactionId::generate(); IPv6 socket addresses with scope ids and flow labels (the IP address, port and wire value must not depend on them); IPv4: all 6 lane pairs x all 65536 value pairs; IPv6: adjacent lanes and lanes 8 apart x 256 x (every 5th value + boundary set; all 256 in thorough); IPv6: all 96 single-bit-different tids; every judged operation is preceded on the same thread by operations under five related transaction ids".to_string();
+    let mut rule = "all 65536 ports x 4 addresses x 3 tids; every byte lane of IPv4/IPv6 address and of the transaction id takes all 256 values against 5 backgrounds (zeros, ones, equal to the XOR key, complement, seeded); boundary tids; 17 special-purpose addresses (unspecified, loopback, IPv4-mapped / -compatible, NAT64, link-local, multicast, 6to4, ...) x 5 ports x 4 tids, and the addresses whose obfuscated (XOR-ed) form is one of those; transaction ids built from integers wider than 96 bits and 4000 ids from TransactionId::generate(); IPv6 socket addresses with scope ids and flow labels (the IP address, port and wire value must not depend on them); IPv4: all 6 lane pairs x all 65536 value pairs; IPv6: adjacent lanes and lanes 8 apart x 256 x (every 5th value + boundary set; all 256 in thorough); IPv6: all 96 single-bit-different tids; for every other 16-bit attribute type x (the sealing types apart): a message carrying an address-shaped attribute of type x before / after / instead of its XOR-MAPPED-ADDRESS, read with attribute::<XorMappedAddress>(); every judged operation is preceded on the same thread by operations under five related transaction ids".to_string();
     if ctx.tier == Tier::Thorough {
         // all 2^32 IPv4 addresses (fast path: address round trip + wire encoding)
         let fails = AtomicU64::new(0);
